@@ -158,7 +158,12 @@ def num_mod(a, b):
 
 
 def num_clip(x, lo, hi):
-    return max(min(x, hi), lo)
+    # the result is a number of the receiver's kind (a float when any argument
+    # is a float): matters downstream, integer and float wrap differ at hi
+    r = max(min(x, hi), lo)
+    if any(isinstance(v, float) for v in (x, lo, hi)):
+        return float(r)
+    return r
 
 
 UNOPS = {
@@ -391,6 +396,36 @@ def _placep(node, c):
             return
 
 
+def _pfuncn(node, c):
+    # Pfuncn(func, repeats): the function's value, repeats times
+    _, value, repeats = node
+    for _ in counter(repeats):
+        c.tick()
+        yield value
+
+
+def _pfunc(node, c):
+    # Pfunc(func): the function's value for ever (the function never ends it)
+    _, value = node
+    while True:
+        c.tick()
+        yield value
+
+
+def _plazy(node, c):
+    # Plazy(func): the pattern the function returns, embedded in place
+    _, sub = node
+    yield from embed(sub, c)
+
+
+def _prout(node, c):
+    # Prout(generator function): the values it yields
+    _, values = node
+    for v in values:
+        c.tick()
+        yield v
+
+
 def _ptuple(node, c):
     _, items, repeats = node
     for _ in counter(repeats):
@@ -580,6 +615,7 @@ SEM = {
     'Pcollect': _pcollect, 'Pselect': _pselect, 'Preject': _preject,
     'Pif': _pif, 'Pwrap': _pwrap, 'Pseed': _pseed,
     'Punop': _punop, 'Pbinop': _pbinop, 'Pnarop': _pnarop,
+    'Pfuncn': _pfuncn, 'Pfunc': _pfunc, 'Plazy': _plazy, 'Prout': _prout,
 }
 
 
@@ -622,6 +658,8 @@ def subnodes(node):
     out = []
     if node[0] == 'Pseed':          # the random spec is an opaque leaf
         return [node[1]] if isnode(node[1]) else []
+    if node[0] == 'Prout':
+        return []
     for x in node[1:]:
         if isnode(x):
             out.append(x)
